@@ -181,3 +181,13 @@ LEVELS['C20'] = {'category': 'other', 'text': 'Feature wiring is proved: on the 
       'property oracles against four real builds of the harness (default, +fma, --no-default-features, overflow/debug-checked); the 5e-5 clause for the non-power curves without fastmath is checked by the oracle, not proved (libm is a model parameter).',
       'note': NOTE, 'technique': 'Lean 4 `decide` on translated Cargo manifests + accuracy theorem under a libm hypothesis + correspondence/oracles under four builds'}
 
+partial('C03', 'Machine-checked by the Lean kernel alone (C03.accuracy), fastmath build, both FMA modes: for 13 of the 14 supported characteristics - BT.1886 and its aliases ST 170M, ST 240M, BT.2020-10/12, BT.470M (2.2), BT.470BG (2.8), xvYCC, sRGB, Log100, Log316, HLG, Linear - `to_linear` and `to_gamma`, reached through the dispatch tables, return for EVERY binary32 value of [0,1] (zero of either sign, subnormals, normals) a finite value within 2.5e-4 of the defining formula over the reals: '
+        'x^gamma and x^(1/gamma); the IEC 61966-2-1 sRGB pair with the STANDARD constants 0.04045 / 0.0031308 / 12.92 / 1.055 / 0.055 (the crate uses derivative-matched constants; the difference is bounded analytically with certified enclosures of rational powers, tangent and chord inequalities: Proofs/SrgbReal.lean); 10^(k(x-1)) and 1 + log10(x)/k; the BT.2100 HLG pair with the exact constants a, b, c (junction at 1/12 handled by a certified enclosure of ln 0.71533108; the square root through F32.sqrt_val). '
+        'The linear->gamma direction of Log100/316 and HLG calls libm log10 / ln, which are PARAMETERS of the model: those three statements carry the explicit hypothesis that the parameter is within 1e-6 of the real function. Everything rests on PowCurve.pow_unit (powf on [0,1] within 1.832e-4 + 7.914e-6 gamma + 4e-6, near-black cases included), expf_close and the exp2/log2 accuracy theorems of C18, i.e. on kernel-evaluated polynomial certificates re-run on the regenerated coefficients; '
+        'every constant of every curve is taken from the regenerated source constants and evaluated exactly (softfloat divisions such as 1.0/2.4 in the kernel). Also proved: Linear is the bit-exact identity for every image, aliases are bit-identical, anchors at 0 and 1 (evaluation). NOT proved: PQ in either direction (2.5e-4 / 5.7e-4): three chained powf calls amplify the certified bounds beyond the budget (measured margin only 1.2x); PQ rests on the bit-exact correspondence plus the f64 oracle (every float of [0,1] in the thorough tier) - hence category other.',
+        'Lean 4: kernel-checked accuracy theorems for 13 of 14 characteristics in both directions (real analysis on top of the powf/expf/sqrt accuracy theorems; libm hypotheses where the code calls libm); correspondence + exhaustive f64 oracle for PQ')
+
+partial('C13', 'Proved (kernel), pixel data being arbitrary bit patterns: every emitted code is <= 2^n-1 (codes_valid); RGB->YUV returns a value or a ConversionError, never panic/UB, and the result satisfies the constructor invariant (rgbToYuv_total); YUV->RGB on any constructed image is total (yuvToRgb_total); gamma<->linear on any float data, any transfer/primaries, any build is total (rgbToLinear_total, linearToRgb_total, from C18.exp2_total); XYB/HSL stages are total maps. '
+        'Finiteness: for 13 of the 14 transfer characteristics every finite component of [0,1] is mapped to a finite value in both directions (curves_finite, corollary of C03.accuracy; Log/HLG linear->gamma under the libm hypotheses). NOT proved: finiteness for PQ and for the composed multi-stage conversions (oracle only); usize overflow behaviour of overflow-checked builds is not modelled (sizes are Nat) - the checked build is exercised by correspondence and oracle.',
+        'Lean 4 theorems (totality, code validity, finiteness of the transfer stage) + correspondence/oracle in optimised and checked builds')
+
